@@ -88,7 +88,7 @@ func udpRun(w *vt.Writer, r *rand.Rand, pool []*entities.InfoElement, dur time.D
 	marker := []byte("VERIF-MARK")
 	peerDone := make(chan struct{})
 	burst := make(chan struct{}) // closed by the peer when it sees the first retransmitted template
-	go func() { // peer: log every datagram
+	go func() {                  // peer: log every datagram
 		defer close(peerDone)
 		buf := make([]byte, 65536)
 		seen := map[int]bool{}
@@ -132,6 +132,7 @@ func udpRun(w *vt.Writer, r *rand.Rand, pool []*entities.InfoElement, dur time.D
 		tmpls := map[int][]*entities.InfoElement{}
 		tids := []int{}
 		late := -1 // manyTemplates: number of new templates still to send inside the first refresh burst
+		lastNew := time.Now()
 		for {
 			select {
 			case <-stopApp:
@@ -159,7 +160,9 @@ func udpRun(w *vt.Writer, r *rand.Rand, pool []*entities.InfoElement, dur time.D
 				tmpls[tid] = sets.RandTemplate(rr, pool, 2)
 				tids = append(tids, tid)
 				d = sets.Tmpl(tid, tmpls[tid])
-			} else if len(tids) == 0 || (len(tids) < 5 && rr.Intn(40) == 0) {
+			} else if len(tids) == 0 || (!manyTemplates && len(tids) < 14 && time.Since(lastNew) > time.Duration(300+rr.Intn(150))*time.Millisecond) {
+				// a new template every 300-450 ms, all through the run: the refresher must not be starved by them
+				lastNew = time.Now()
 				tid := 256 + len(tids)
 				tmpls[tid] = sets.RandTemplate(rr, pool, 8)
 				tids = append(tids, tid)
@@ -275,7 +278,9 @@ func udpPeerGone(w *vt.Writer, r *rand.Rand, pool []*entities.InfoElement) int {
 
 // tcpBackpressure: the collector is alive but does not read for a while: application writes block on
 // a full socket while connection checks keep running. Nothing may fail and the stream must stay intact.
-func tcpBackpressure(w *vt.Writer, r *rand.Rand, pool []*entities.InfoElement) int {
+// closeWhileBlocked: instead of letting the peer read, another goroutine calls Close while the SendSet is blocked:
+// Close returns (the pending send is aborted with an error), nothing is left behind.
+func tcpBackpressure(w *vt.Writer, r *rand.Rand, pool []*entities.InfoElement, closeWhileBlocked bool) int {
 	// a small receive buffer on the listening socket (inherited by the accepted one): the sender's
 	// socket fills after a few messages instead of a few megabytes
 	lc := net.ListenConfig{Control: func(network, address string, c syscall.RawConn) error {
@@ -314,6 +319,7 @@ func tcpBackpressure(w *vt.Writer, r *rand.Rand, pool []*entities.InfoElement) i
 	}
 	stopRead := make(chan struct{})
 	readDone := make(chan struct{})
+	closedCh := make(chan struct{})
 	var reading atomic.Bool
 	go func() { // the peer: silent until one SendSet has been blocked for 400 ms (at most 10 s), then reads and logs every message of the stream
 		defer close(readDone)
@@ -328,6 +334,9 @@ func tcpBackpressure(w *vt.Writer, r *rand.Rand, pool []*entities.InfoElement) i
 			}
 		}
 		reading.Store(true)
+		if closeWhileBlocked {
+			<-closedCh // the peer reads what is in flight only after Close has returned
+		}
 		hdr := make([]byte, 4)
 		for {
 			conn.SetReadDeadline(time.Now().Add(700 * time.Millisecond))
@@ -336,6 +345,7 @@ func tcpBackpressure(w *vt.Writer, r *rand.Rand, pool []*entities.InfoElement) i
 				case <-stopRead:
 					return
 				default:
+					time.Sleep(time.Millisecond)
 					continue
 				}
 			}
@@ -348,6 +358,9 @@ func tcpBackpressure(w *vt.Writer, r *rand.Rand, pool []*entities.InfoElement) i
 			copy(msg, hdr)
 			conn.SetReadDeadline(time.Now().Add(5 * time.Second))
 			k, _ := io.ReadFull(conn, msg[4:])
+			if closeWhileBlocked && 4+k < n {
+				return // the message whose write Close aborted: a truncated tail at the very end of the stream
+			}
 			w.Emit(vt.Ev{"e": "Recv", "bytes": vt.B(msg[:4+k]), "sec": int(time.Now().Unix())})
 		}
 	}()
@@ -356,11 +369,31 @@ func tcpBackpressure(w *vt.Writer, r *rand.Rand, pool []*entities.InfoElement) i
 	for i := range big {
 		big[i] = 97 + i%26
 	}
+	var cwg sync.WaitGroup
+	if closeWhileBlocked {
+		cwg.Add(1)
+		go func() { // Close from another goroutine while the application's SendSet is blocked in its write
+			defer cwg.Done()
+			for t := time.Now(); !reading.Load() && time.Since(t) < 11*time.Second; time.Sleep(5 * time.Millisecond) {
+			}
+			w.Emit(vt.Ev{"e": "CloseBegin", "c": 1, "ms": ms()})
+			var one sync.WaitGroup
+			one.Add(1)
+			go func() { defer one.Done(); ep.CloseConnToCollector() }()
+			// the application goroutine is itself stuck in SendSet: the watchdog has to live here
+			waitOrHang(w, &one, "CloseConnToCollector while a SendSet is blocked on back-pressure")
+			w.Emit(vt.Ev{"e": "CloseEnd", "c": 1, "ms": ms()})
+			close(closedCh)
+		}()
+	}
 	t0 := time.Now()
 	for !reading.Load() && time.Since(t0) < 10*time.Second { // a write blocks once the socket buffers are full
 		if !send(sets.Desc{Stype: "data", HdrID: 256, Recs: []sets.Rec{{Tid: 256, IEs: ies, Vals: [][]int{{7}, big}}}}) {
 			break
 		}
+	}
+	if closeWhileBlocked {
+		waitOrHang(w, &cwg, "CloseConnToCollector while a SendSet is blocked on back-pressure")
 	}
 	time.Sleep(300 * time.Millisecond)
 	close(stopRead)
@@ -481,7 +514,8 @@ func main() {
 	evals += udpRun(w, r, pool, 3300*time.Millisecond, dist)
 	manyTemplates = false
 	for i := 0; i < (ntcp+1)/2; i++ {
-		evals += tcpBackpressure(w, r, pool)
+		evals += tcpBackpressure(w, r, pool, false)
+		evals += tcpBackpressure(w, r, pool, true)
 	}
 	for i := 0; i < ntcp; i++ {
 		evals += tcpRun(w, r, pool)
